@@ -73,12 +73,22 @@ func formatObjectName(name string) string {
 
 func formatIdentifier(name string) string {
 	name = strings.TrimLeft(name, "$_")
-	return tools.SnakeCase(escapeIdentifier(name))
+	return escapeKeyword(tools.SnakeCase(escapeIdentifier(name)))
 }
 
 func formatFunctionName(name string) string {
 	name = strings.TrimLeft(name, "$_")
-	return tools.SnakeCase(escapeFunctionName(name))
+	return escapeKeyword(tools.SnakeCase(escapeFunctionName(name)))
+}
+
+// escapeKeyword makes sure that the name, as it will be written, is not a reserved
+// word: `From` is written `from`.
+func escapeKeyword(name string) string {
+	if isReservedPythonKeyword(name) {
+		return name + "_val"
+	}
+
+	return name
 }
 
 func escapeIdentifier(name string) string {
